@@ -78,6 +78,9 @@ FIRST = {
     'f06-C14': 'missed -> A1: the treespec\'s own members and locals that are also stored into a member are not fresh; no `mutable` data member in PyTreeSpec / Node',
     'f08-C16': 'missed by C16 (K3 reported it under C03) -> I1 raw-items: a raw item array taken from a sequence is not read across user code',
     'f10-C19': 'missed -> DC5 uses-the-class-the-stdlib-returns',
+    'g01-C01': 'caught', 'g02-C02': 'caught', 'g03-C03': 'caught', 'g06-C06': 'caught (the same change as c06, written independently)',
+    'g09-C09': 'caught', 'g10-C10': 'caught', 'g13-C13': 'caught', 'g18-C18': 'caught', 'g20-C20': 'caught',
+    'g05-C05': 'analysis error only (five of the six edits are behaviour-preserving; F2 did not know the form) -> F2 reads `<leaves> if r is tree else treespec.flatten_up_to(r)` and reports the one that hands out `paths`',
     'c03-C03': 'missed by C03 (D2 reported it under C02 / C13) -> D2 now also decides C03',
     'c02-C02': 'missed by C02 (T3 reported it under C17 / C18) -> T1, T3, T3b now also decide C02',
     'c01-C01': 'missed by C01 (the same change as b10, written independently; DC1 reported it under C19) -> DC1 and DC4 now also decide C01',
